@@ -12,13 +12,14 @@ import (
 // ---------------------------------------------------------------- client role
 
 type CHOpt struct {
-	Vers    uint16
-	Suites  []uint16
-	SID     []byte
-	Cookie  []byte
-	Comp    []byte
-	Ext     []byte // raw extensions block (without its 2-byte length); nil: none
-	Random  []byte
+	Vers           uint16
+	Suites         []uint16
+	SID            []byte
+	Cookie         []byte
+	Comp           []byte
+	Ext            []byte // raw extensions block (without its 2-byte length); nil: none
+	Random         []byte
+	KeepTranscript bool // a retransmission: the transcript keeps the hello sent before
 }
 
 // SendClientHello builds and sends a ClientHello; it (re)starts the transcript.
@@ -54,7 +55,9 @@ func (p *Peer) SendClientHello(o CHOpt) error {
 		b = append(b, u16(o.Ext)...)
 	}
 	m := p.hsMsg(HSClientHello, b)
-	p.Transcript = append([]byte{}, m...)
+	if !o.KeepTranscript {
+		p.Transcript = append([]byte{}, m...)
+	}
 	return p.SendRecord(RecHS, m)
 }
 
